@@ -94,6 +94,7 @@ func RunSingle(chk *Check, tier string, seed int64, index int) int {
 		return 2
 	}
 	defer os.RemoveAll(scratch)
+	defer CleanFuseMounts(scratch)
 	c := NewCase(chk.ID, tier, seed, index, scratch)
 	c.Verbose = true
 	chk.Run(c)
